@@ -208,13 +208,13 @@ CHECKS['C10'] = {
     'explanation': 'units blk + msz, kani negotiate_within_budget',
 }
 CHECKS['C12'] = {
-    'level': 'proof', 'units': ['blk'], 'kani': [],
-    'technique': 'Verus frame conditions on the verbatim entry points: only the state under the request key is touched; replies keep message id, token and token length of the current request',
+    'level': 'proof', 'units': ['blk', 'key'], 'kani': [],
+    'technique': 'Verus frame conditions on the verbatim entry points: only the state under the request key is touched; replies keep message id, token and token length of the current request; RequestCacheKey::from verified to store exactly (method code byte, path segments, endpoint) with a lemma that keys differ iff one of the three differs',
     'level_text': 'Proof relative to the cache contract (R24): intercept_request / intercept_response read and write only the state stored under key_of(request) - every other key keeps its state (or expires) - so transfers with different keys cannot observe each other; and on every path, including blocks served from the cache via packet_clone_limited, the reply keeps the message id, token and token-length field that CoapResponse::new took from the request being answered.',
-    'level_note': _BLK_NOTE + ' NOT covered: that keys differ whenever endpoint, method or path segments differ (RequestCacheKey::from uses get_path_as_vec: iterator collect, not read by Verus).',
+    'level_note': _BLK_NOTE + ' Unit key: the real From<&CoapRequest> impl of RequestCacheKey is verified (fields == (u8 of Request(method), decoded Uri-Path segments in order, clone of source)); lemma_keys_differ: two requests share all key fields iff they agree in method, segment list and endpoint (segmentation included: the key holds the list, not a joined string). Assumed there: get_path_as_vec (iterator adapters + String::from_utf8) returns the decoded segments in order, and the derived Ord/Eq of the key struct are field-wise. The composition blk.key_of == id of these fields is by construction of the cache abstraction, not proved.',
     'trusted': [T_VERUS, T_R1] + T_BLK,
-    'not_covered': ['key injectivity (RequestCacheKey::from)', 'the external lru_time_cache behaves as a per-key map'],
-    'explanation': 'unit blk',
+    'not_covered': ['CoapRequest::get_path_as_vec (assumed contract)', 'the external lru_time_cache behaves as a per-key map', 'a Uri-Path that is not valid UTF-8 is keyed like the empty path (outside the quantifier of C12)'],
+    'explanation': 'units blk, key',
 }
 
 HOOK_COMMITS = ['7321ffc']
